@@ -337,6 +337,49 @@ def c_ghost_axioms(ctx, spec):
         keys = [minleaf[id(c)] for c in C[id(x)]]
         if len(set(keys)) != len(keys):
             return ("children_facts: ordering keys of siblings are distinct", keys)
+    # pre_def: node counts NN, prefix sums SNNC over the *ordered* child lists, P / Q defined by recursion
+    NN = {}
+
+    def nn(n):
+        if id(n) not in NN:
+            NN[id(n)] = 1 + sum(nn(c) for c in n.children)
+        return NN[id(n)]
+
+    def Pdef(n, post):
+        out = [] if post else [n]
+        for c in C[id(n)]:
+            out.extend(Pdef(c, post))
+        return out + [n] if post else out
+    for x in nodes:
+        sn = [0]
+        for c in C[id(x)]:
+            sn.append(sn[-1] + nn(c))
+        if not (nn(x) >= 1 and nn(x) == 1 + sn[len(x.children)] and all(a <= b for a, b in zip(sn, sn[1:]))):
+            return ("pre_def: NN(x) == 1 + SNNC(x, nchild), prefix sums monotone", (nn(x), sn))
+        for post in (False, True):
+            P = Pdef(x, post)
+            off = 0 if post else 1
+            if len(P) != nn(x) or P[nn(x) - 1 if post else 0] is not x:
+                return ("pre_def: |P(x)| == NN(x), x first (last)", len(P))
+            for k, c in enumerate(C[id(x)]):
+                Pc = Pdef(c, post)
+                for j in range(nn(c)):
+                    if P[off + sn[k] + j] is not Pc[j]:
+                        return ("pre_def: P(x)[off + SNNC(x,k) + j] is P(C(x)[k])[j]", (k, j))
+            real = list((trees.postorder if post else trees.preorder)(x))
+            if len(real) != len(P) or any(a is not b for a, b in zip(real, P)):
+                return ("%s(x) == the recursively defined list" % ("postorder" if post else "preorder"),
+                        [n_.data.get("label") or n_.data.get("word") for n_ in real])
+            pos = dict((id(n_), i) for i, n_ in enumerate(P))
+            sub = [n_ for n_ in nodes if anc(n_, depth[id(x)]) is x] if True else []
+            sub = [n_ for n_ in sub if depth[id(n_)] >= depth[id(x)]]
+            if len(pos) != len(P) or sorted(pos) != sorted(id(n_) for n_ in sub):
+                return ("preorder_facts: every node below x exactly once", len(pos))
+            for y in sub:
+                for z in sub:
+                    if y is not z and depth[id(z)] >= depth[id(y)] and anc(z, depth[id(y)]) is y:
+                        if (pos[id(y)] > pos[id(z)]) != post:
+                            return ("ancestors before (after) descendants", (pos[id(y)], pos[id(z)]))
     # wf_theory_tokens: a rank (height) that strictly decreases towards the children, NL / SNL token counts,
     # least tokens of two stored children carry different numbers, distinct tokens carry distinct numbers
     hgt = {}
